@@ -74,11 +74,6 @@ Fixpoint haar_nd (L : nat) (shape axes : list nat) (x : list T) : list T :=
       end
   end.
 
-(* DiscretizedSpace weighting: the FULL cell volume, product over ALL axes *)
-Definition cell_volume (sides : list T) : T := fold_right nmul none_ sides.
-(* <x, y> of a uniformly weighted real DiscretizedSpace; the coefficient space rn(size) is unweighted *)
-Definition inner_dom (sides : list T) (x y : list T) : T := cell_volume sides * dot x y.
-
 (* every axis in `axes` has an even number of points on every level *)
 Fixpoint evens (shape axes : list nat) : Prop :=
   match axes with
@@ -96,4 +91,57 @@ Fixpoint even_chain_nd (L : nat) (shape axes : list nat) : Prop :=
   | O => True
   | S L' => evens shape axes /\ even_chain_nd L' (shape_after shape axes) axes
   end.
+
+(* ---------------- the inverse over a list of axes ---------------- *)
+Fixpoint map2 {A B C : Type} (f : A -> B -> C) (l : list A) (m : list B) : list C :=
+  match l, m with
+  | a :: l', b :: m' => f a b :: map2 f l' m'
+  | _, _ => []
+  end.
+(* two-input version of Lib/Axis.along: corresponding lines (length n) of two arrays of the same
+   shape outer x n x inner are combined by F into one line of length n' *)
+Definition along_block2 (n inner n' : nat) (F : list T -> list T -> list T) (bx byy : list T) : list T :=
+  concat (transp n' (map2 F (transp inner (chunks inner n bx)) (transp inner (chunks inner n byy)))).
+Definition along2 (outer n inner n' : nat) (F : list T -> list T -> list T) (x y : list T) : list T :=
+  concat (map2 (along_block2 n inner n' F) (chunks (n * inner) outer x) (chunks (n * inner) outer y)).
+
+(* one reconstruction level (pywt.idwtn): sub-bands in sorted-key order -> array of shape `shape`;
+   a reconstructed line is cropped to the target length (the trimming of waverecn / ODL) *)
+Fixpoint istep_axes (shape : list nat) (axes : list nat) (bands : list (list T)) : list T :=
+  match axes with
+  | [] => hd [] bands
+  | ax :: rest =>
+      let n := nth ax shape 0%nat in
+      let m := ((n + 1) / 2)%nat in
+      let shape' := set_nth shape ax m in
+      let h := (length bands / 2)%nat in
+      let s := istep_axes shape' rest (firstn h bands) in
+      let d := istep_axes shape' rest (skipn h bands) in
+      along2 (prodn (firstn ax shape)) m (inner_of shape ax) n
+             (fun u v => firstn n (ihaar_step u v)) s d
+  end.
+(* number of coefficients of haar_nd *)
+Fixpoint haar_nd_size (L : nat) (shape axes : list nat) : nat :=
+  match L with
+  | O => prodn shape
+  | S L' => let sh' := shape_after shape axes in
+            (haar_nd_size L' sh' axes + (2 ^ length axes - 1) * prodn sh')%nat
+  end.
+(* WaveletTransformInverse('haar', nlevels=L, pad_mode='pywt_periodic', axes=axes)._call *)
+Fixpoint ihaar_nd (L : nat) (shape axes : list nat) (c : list T) : list T :=
+  match L with
+  | O => c
+  | S L' =>
+      let sh' := shape_after shape axes in
+      let B := prodn sh' in
+      let k := haar_nd_size L' sh' axes in
+      istep_axes shape axes
+                 (ihaar_nd L' sh' axes (firstn k c) :: chunks B (2 ^ length axes - 1) (skipn k c))
+  end.
+
+(* DiscretizedSpace weighting: the FULL cell volume, product over ALL axes *)
+Definition cell_volume (sides : list T) : T := fold_right nmul none_ sides.
+(* <x, y> of a uniformly weighted real DiscretizedSpace; the coefficient space rn(size) is unweighted *)
+Definition inner_dom (sides : list T) (x y : list T) : T := cell_volume sides * dot x y.
+
 End Haar.
